@@ -446,6 +446,7 @@ Legal(kk, p, in) ==
     [] op = "stop" -> Alive(kk, a1)
     [] op = "prio" -> a1 \in PIDs
     [] op = "start" -> a1 \in PIDs /\ a1 # p /\ kk.st[a1] # "alive" /\ ~(\E e \in kk.evq : e.p = a1)
+    [] op = "taddo" -> Alive(kk, a1) /\ a1 # p /\ in[4] # 0       \* a timer armed for another (suspended) process
     [] op = "tcancel" -> a1 \in 1..Len(kk.tim[p])
     [] op = "wevent" -> a1 \in 1..NUEv /\ Pending(kk, kk.uevh[a1])
     [] op = "evcancel" -> a1 \in 1..NUEv
@@ -492,6 +493,11 @@ Exec1(S, p, in) ==
          LET S1 == Sched(S, "time", t + a1, kk.prio[p], p, a2)
              S2 == SetK(S1, [S1.k EXCEPT !.awaits[p] = @ \cup {[ty |-> "time", x |-> kk.nextH]}, !.tim[p] = Append(@, kk.nextH)])
          IN Snap(Emit(S2, DoEv(p, in, kk.nextH, Len(kk.tim[p]) + 1, t)))
+    [] op = "taddo" ->      \* cmb_process_timer_add(other process): the timer belongs to the target and has the target's priority
+         LET q == a1
+             S1 == Sched(S, "time", t + a2, kk.prio[q], q, a3)
+             S2 == SetK(S1, [S1.k EXCEPT !.awaits[q] = @ \cup {[ty |-> "time", x |-> kk.nextH]}, !.tim[q] = Append(@, kk.nextH)])
+         IN Snap(Emit(S2, DoEv(p, in, kk.nextH, Len(kk.tim[q]) + 1, t)))
     [] op = "tcancel" ->
          LET h == kk.tim[p][a1]
              found == Pending(kk, h)
